@@ -546,3 +546,50 @@ package rsm
 //@ modifies held(rec.Mutex), rec.sessions, rec.size
 //@ ensures result == nil ==> (forall k uint64 :: rec.sessions.gsess[k] != nil ==> fresh(rec.sessions.gsess[k]))
 //@ loop 2 invariant fresh(rec.sessions) && (forall k uint64 :: rec.sessions.gsess[k] != nil ==> fresh(rec.sessions.gsess[k]))
+
+// ---------------------------------------------------------------- reading and validating checksummed blocks (C14)
+// From the property: corruption is detected, not loaded. gBlockBad: some block handed to
+// validateBlock since the flag was last clear failed its checksum comparison.
+//@ ghost var gBlockBad bool
+//@ func validateBlock [C14]
+//@ trusted splits the block into payload and stored checksum, recomputes the checksum of the payload and compares (hash, bytes.Equal)
+//@ ghostset gBlockBad := old(gBlockBad) || !result
+//@ func mustGetChecksum [C14]
+//@ trusted returns the hash implementation of the checksum type
+//@ ensures result != nil
+//@ extern io ReadFull
+
+// a block whose checksum does not match is never made available to Read (fail-stop instead)
+//@ func (br *blockReader) readBlock [C14]
+//@ noframe
+//@ nobounds
+//@ requires !gBlockBad
+//@ modifies gBlockBad, br.block
+//@ ensures !gBlockBad
+
+// Read hands out only bytes of blocks that passed validation
+//@ func (br *blockReader) Read [C14]
+//@ noframe
+//@ nobounds
+//@ requires !gBlockBad
+//@ modifies gBlockBad, br.block
+//@ ensures !gBlockBad
+//@ loop 1 invariant !gBlockBad
+
+// the stream validator accepts only if every complete block it has seen matched its checksum
+//@ func (v *v2validator) validateMagicSize [C14]
+//@ trusted compares the magic number and the recorded payload size of the tail
+//@ func (v *v2validator) AddChunk [C14 C15]
+//@ noframe
+//@ nobounds
+//@ requires !gBlockBad
+//@ modifies gBlockBad, v.block, v.total
+//@ ensures result ==> !gBlockBad
+//@ loop 1 invariant !gBlockBad
+//@ func (v *v2validator) Validate [C14 C15]
+//@ noframe
+//@ nobounds
+//@ requires !gBlockBad
+//@ modifies gBlockBad
+//@ ensures result ==> !gBlockBad
+//@ loop 1 invariant !gBlockBad
